@@ -4,6 +4,7 @@ import Driver.C02
 import Driver.C20
 import Driver.C19
 import Driver.Auth
+import Driver.C11
 open Driver
 
 def machines : List (String × Machine × Machine) :=
@@ -12,7 +13,8 @@ def machines : List (String × Machine × Machine) :=
    ("C20", C20.machine, C20.judge),
    ("C19", C19.machine, C19.judge),
    ("C01", Auth.machine, Auth.judgeC01),
-   ("C03", Auth.machine, Auth.judgeC03)]
+   ("C03", Auth.machine, Auth.judgeC03),
+   ("C11", C11.machine, C11.judge)]
 
 def main (args : List String) : IO UInt32 := do
   match args with
